@@ -7,7 +7,7 @@
    computed witnesses in ApiWitness.v. *)
 From Coq Require Import List ZArith Bool Arith.
 From Coercion.Base Require Import Plan.
-From Coercion.Api Require Import ApiModel ApiProofs ApiWitness.
+From Coercion.Api Require Import ApiModel ApiProofs ApiWitness ApiLockVariant.
 Import ListNotations.
 Local Open Scope Z_scope.
 
@@ -149,3 +149,15 @@ Theorem c12_refuted_with_read_before_lock :
      = Some [ROk; RNone; RNone; RNone; RNone; ROk; RNone; RNone; RNone; RNone; ROk].
 Proof. exact read_before_lock_refuted. Qed.
 Print Assumptions c12_refuted_with_read_before_lock.
+
+(* The mutex must be ONE object for the plan's whole life (the code has a single startMu): with a per-plan mutex
+   looked up in a map and deleted from it when Start returns, a call queued on the old mutex and a call that
+   arrives after a failed holder returned are both in the critical section - the configuration without mutex,
+   refuted above (c12_refuted_with_waiter_check_only).  Lock protocol on its own: ApiLockVariant.v. *)
+Theorem c12_refuted_with_per_plan_lock_deleted_on_return :
+  match krun true linit [KEnter; KLock 0; KEnter; KReturn 0; KLock 0; KEnter; KLock 1] with
+  | Some s => holders s = 2%nat
+  | None => False
+  end.
+Proof. exact per_plan_lock_deleted_on_return_refuted. Qed.
+Print Assumptions c12_refuted_with_per_plan_lock_deleted_on_return.
